@@ -15,7 +15,7 @@ import (
 func init() {
 	register("C09", "component-wise structure of Eq instances; Hashable built on the matching Eq, deterministic and never finer than it", func(c *core.Ctx) {
 		eqh := []*packages.Package{c.Pkg("eq"), c.Pkg("hash")}
-		MapOK(c, "R-MAPOK", eqh, 1)
+		MapOK(c, "R-MAPOK", eqh, 0) // the one lookup disappears when the closure is written with maps.EqualFunc
 		Mirror(c, "R-MIRROR", eqh, typeclassBinMethods, false, nil, 40)
 		Rel(c, "R-REL", eqh, anyDecl, instanceParam, 80)
 		HashRules(c, c.Pkg("hash"))
